@@ -48,6 +48,12 @@ func (e *Engine) opBatch(c *cursor) *Violation {
 	}
 	add := subset(c, canAdd, 2)
 	rem := subset(c, canRem, 2)
+	switch op.Variant {
+	case "Batch.Add":
+		rem = nil
+	case "Batch.Remove":
+		add = nil
+	}
 	// relation constraint: adding a relation needs every match to be without one afterwards
 	relRemoved := setOf(rem)&e.M.RelMask != 0
 	if anyRel && !relRemoved {
@@ -121,9 +127,11 @@ func (e *Engine) opBatch(c *cursor) *Violation {
 
 	// order in which a loop of single removals has to run in the entity-only twin
 	var order []ecs.Entity
-	if op.Variant == "Batch.RemoveEntities" && why == "" && !e.locked() && e.hasShadow("load") {
+	e.rmOrder = nil
+	if op.Variant == "Batch.RemoveEntities" && why == "" && !e.locked() && (e.hasShadow("load") || e.hasShadow("fresh")) {
 		q := e.S.W.Query(e.S.filterFor(op))
 		order = collect(&q)
+		e.rmOrder = order
 	}
 
 	res, ok, v := e.issue(op, why)
